@@ -230,13 +230,13 @@ Options:
 		insertGen,
 		*insertFile,
 	)
+	if nil != err {
+		log.Fatalf("Error setting up shell: %s", err)
+	}
 	och <- opshell.CLine{Prompt: shell.WrapInColor(
 		Prompt,
 		opshell.ColorCyan,
 	)}
-	if nil != err {
-		log.Fatalf("Error setting up shell: %s", err)
-	}
 	defer cleanup()
 
 	/* Warn the user if the insertion file isn't there or looks empty. */
